@@ -213,6 +213,7 @@ class Interp:
         self.state_limit = PATH_LIMIT * 50
         self.lists = {}           # list id -> length (k-bounded list model, see listmodel.py)
         self.const_params = {}    # const generic name -> value (container model: `[T; N]` analysed with N = list length)
+        self.key_ops = set()
         self.user_drops_unwind = True   # dropping a value of a type parameter runs a user destructor, which may unwind
         self.acq_limit = None     # cut a path when it is about to issue more than this many blocking acquisitions
         self.root_is_leaf_rawlock_impl = False
@@ -756,6 +757,11 @@ class Interp:
         m = fn["mir"]
         ti_ = fn.get("trait_item") or ""
         self.root_is_leaf_rawlock_impl = ti_.startswith("lockable::RawLock::")
+        self.key_ops = set()
+        for i in range(1, m["arg_count"] + 1):
+            ti = m["locals"][i]["ty"]
+            if ti["k"] == "param" and self._is_key_param(fn, ti["name"]):
+                self.key_ops.add("a%d" % i)      # the caller's key (whatever a private helper calls its type parameter)
         if args is None:
             args = []
             for i in range(1, m["arg_count"] + 1):
@@ -1071,7 +1077,8 @@ class Interp:
             outs = [("ok", st)]
             # the destructor of a user-chosen type is user code: it may unwind (keys - `impl Keyable`, sealed to ThreadKey and
             # `&mut ThreadKey` - and guard payloads are not user code)
-            if self.user_drops_unwind and g is None and not self._is_key_param(fn, t["name"]) and self.can_fault(st):
+            if self.user_drops_unwind and g is None and not self._is_key_param(fn, t["name"]) and \
+                    oid.split(".")[0] not in self.key_ops and self.can_fault(st):
                 s2 = st.fork()
                 s2.faults += 1
                 self.emit(s2, {"k": "UNWIND_AT", "what": "drop of a user value (%s)" % t["name"]}, fn, line)
